@@ -92,6 +92,7 @@ func c05Programs(thorough bool) []c05Prog {
 		p("match-exhaustive-five", "package main\n\ntype U =\n  | A\n  | B of int\n  | C\n  | D of string\n  | E\n\nlet f (u:U) =\n  match u with\n  | E -> 1\n  | D _ -> 2\n  | C -> 3\n  | B x -> x\n  | A -> 5\n"),
 		p("match-default-three-missing", "package main\n\ntype U =\n  | A\n  | B of int\n  | C\n  | D\n\nlet f (u:U) =\n  match u with\n  | B x -> x\n  | _ -> 0\n"),
 		p("package-info-many", "package main\n\npackage_info ext =\n  type Box<T>\n  type Pair<K, V>\n  type H\n  let Mk<T>: T->Box<T>\n  let Get<T>: Box<T>->T\n  let Pr<K, V>: K->V->Pair<K, V>\n  let Hd: ()->H\n  let Use: H->int->string\n\nlet f (x:int) =\n  let b = ext.Mk x\n  let p = ext.Pr (ext.Get b) \"s\"\n  ext.Use (ext.Hd ()) (ext.Get b)\n"),
+		p("package-info-types-by-qualified-name", "package main\n\npackage_info shp =\n  type Circle\n  type Sq<T>\n  type Pr<K, V>\n  let MkC: ()->Circle\n  let MkS<T>: T->Sq<T>\n\nlet f (c: shp.Circle) (s: shp.Sq<int>) (p: shp.Pr<int, string>) =\n  1\n\nlet g () =\n  let c = shp.MkC ()\n  let s = shp.MkS 1\n  f c s\n"),
 		p("package-info-two-blocks-one-package", "package main\n\npackage_info ext =\n  type H\n  let Hd: ()->H\n  let A1: H->int\n\npackage_info ext =\n  let A2: H->string\n  let A3: int->H\n  type J\n  let Mj: H->J\n\nlet f () =\n  let h = ext.Hd ()\n  let j = ext.Mj (ext.A3 (ext.A1 h))\n  ext.A2 h\n"),
 		p("package-info-underscore", "package main\n\npackage_info _ =\n  type W\n  type V<T>\n  let mkW: ()->W\n  let wrap<T>: T->V<T>\n  let unwrap<T>: V<T>->T\n  let useW: W->int->()\n\nlet f () =\n  let v = wrap 3\n  useW (mkW ()) (unwrap v)\n"),
 		p("inference-chain", "package main\n\nlet chain a b c d e f =\n  let x = [a; b]\n  let y = [b; c]\n  let z = [c; d]\n  let w = [d; e]\n  let u = [e; f]\n  (x, y, z)\n"),
